@@ -2,6 +2,7 @@ package gosym
 
 import (
 	"fmt"
+	"go/types"
 	"os"
 	"path/filepath"
 	"strings"
@@ -22,6 +23,7 @@ type Program struct {
 	sampleModels bool
 	LoadSeconds  float64
 	RepoDir      string
+	rtypePtr     types.Type // *reflect.rtype (reflect model)
 }
 
 type noIntrinsic struct{}
